@@ -13,6 +13,8 @@
 #include <cstdio>
 #include <functional>
 #include <iostream>
+#include <array>
+#include <deque>
 #include <memory>
 #include <stdexcept>
 #include <sstream>
@@ -27,12 +29,13 @@ namespace {
 struct test_channel
 {
     byte_storage out;
-    std::function<void(bytes)> read_cb;
     int reads_armed = 0;
 
+    // reads are queued in the order they were posted (a client may post several); a delivery completes the oldest one
+    std::deque<std::function<void(bytes)>> pending;
     void async_read(std::function<void(bytes)> const &cb)
     {
-        read_cb = cb;
+        pending.push_back(cb);
         ++reads_armed;
     }
     long fault_in = -1;   // >= 0: the write() call after that many more calls throws, once
@@ -50,8 +53,9 @@ struct test_channel
 
     void deliver(bytes d)
     {
-        auto cb = std::move(read_cb);
-        read_cb = nullptr;
+        if (pending.empty()) return;
+        auto cb = std::move(pending.front());
+        pending.pop_front();
         if (cb) cb(d);
     }
 };
@@ -237,6 +241,18 @@ struct to_one
     template <class F> void each(F const &f) const { f(t); }
 };
 
+// … or to one terminal as a NAMED object streamed as an lvalue (`auto m = set_window_title(t); term << m;`)
+struct to_one_named
+{
+    terminal &t;
+    template <class M> void operator()(M &&m) const
+    {
+        std::remove_cvref_t<M> named = std::forward<M>(m);
+        t << named;
+    }
+    template <class F> void each(F const &f) const { f(t); }
+};
+
 struct to_many
 {
     std::vector<terminal *> ts;
@@ -357,6 +373,10 @@ struct terminal_script
                 ch.deliver(bytes{data.data(), data.size()});
             }
             else if (op == "rv") ch.alive = true;
+            else if (op == "lv") {
+                std::string inner = r.word();
+                if (!apply_terminal_op_to(inner, r, to_one_named{*t})) { res += "?op "; return; }
+            }
             else if (!apply_terminal_op(op, r, *t)) { res += "?op "; return; }
         }
         catch (std::exception const &) { threw = true; }
@@ -424,6 +444,42 @@ std::string run_multi(std::string const &rest)
     return shared + " ## " + alone;
 }
 
+// ---------------------------------------------------------------- d: the designator lookup in CONSTANT EVALUATION
+// `lookup_character_set` is constexpr (the `_ete` literal uses it at compile time): the answers for every one-byte
+// candidate and every `%`-extended candidate are computed by the compiler here and must be the ones the run-time call gives.
+namespace ct_tables {
+constexpr int ct_lookup(byte a, bool extended)
+{
+    byte const code2[2] = {ansi::charset_extender, a};
+    byte const code1[1] = {a};
+    auto cs = extended ? lookup_character_set(bytes{code2, 2}) : lookup_character_set(bytes{code1, 1});
+    return cs ? static_cast<int>(static_cast<byte>(cs->value_)) : -1;
+}
+template <bool Ext> constexpr std::array<int, 256> make()
+{
+    std::array<int, 256> t{};
+    for (int i = 0; i < 256; ++i) t[static_cast<std::size_t>(i)] = ct_lookup(static_cast<byte>(i), Ext);
+    return t;
+}
+constexpr std::array<int, 256> one = make<false>();
+constexpr std::array<int, 256> ext = make<true>();
+}  // namespace ct_tables
+
+std::string run_lookup_ct(reader &r)
+{
+    long n = r.num();
+    byte_storage code;
+    for (long i = 0; i < n; ++i) code.push_back(static_cast<byte>(r.num()));
+    int v;
+    if (n == 1 && code[0] != ansi::charset_extender) v = ct_tables::one[code[0]];
+    else if (n == 2 && code[0] == ansi::charset_extender) v = ct_tables::ext[code[1]];
+    else {
+        auto cs = lookup_character_set(bytes{code.data(), code.size()});
+        v = cs ? static_cast<int>(static_cast<byte>(cs->value_)) : -1;
+    }
+    return v < 0 ? std::string("-") : std::to_string(v);
+}
+
 // ---------------------------------------------------------------- D N H X Y: tables and palette
 std::string run_lookup(reader &r)
 {
@@ -484,6 +540,7 @@ int main()
         reader r(rest);
         switch (kind) {
             case 'T': ans = run_terminal(rest); break;
+            case 'd': { reader rr(rest); ans = run_lookup_ct(rr); break; }
             case 'M': ans = run_multi(rest); break;
             case 'D': ans = run_lookup(r); break;
             case 'N': ans = run_encode_cs(r); break;
